@@ -19,9 +19,9 @@ func init() {
 		Level: "exploration",
 		Rule: "twin monitor: sketches A and B (both variants, all 5 store kinds, all mapping kinds) receive the same seeded mutation history; A additionally receives, between mutations, random read-only calls (quantiles single/batch, count/min/max/sum, ForEach with early stop, Bins, KeyAtRank, MinIndex/MaxIndex, ToProto, EncodeProto, Encode, Copy, being the argument of MergeWith and of ChangeMapping); " +
 			"the observation of A must be identical across every read-only call and equal to B's at the end; copies taken at random points must equal the original at copy time and, after disjoint suffixes on both sides, each must equal its own sequentially replayed twin. " +
-			"Second pass (race-detector build): a sketch/store and its Copy are hammered by two unsynchronised goroutines; any DATA RACE report is shared mutable state between independent objects. Non-trivial = the hook saw a read-only call reorganise the representation (sort/compact) or a copy followed by mutations on both sides; distinct = hash of the history.",
+			"Second pass (race-detector build): two objects that must be independent - a sketch/store and its Copy, the receiver and the argument of a merge into an empty sketch, the source and the result of an identity conversion, a sketch and the one decoded from its encoding, a sketch and the one rebuilt from its protobuf message (handed over as it is; the message is re-read meanwhile) - are hammered by two unsynchronised goroutines; any DATA RACE report is shared mutable state, and each must end equal to its sequential twin. Non-trivial = the hook saw a read-only call reorganise the representation (sort/compact) or a copy followed by mutations on both sides; distinct = hash of the history.",
 		Cases:     core.Scale(10000, 250000),
-		Mandatory: []string{"oracle.read_purity_checks", "oracle.twin_equalities", "oracle.copy_equalities", "oracle.copy_independence_checks", "layout.read_reorganised", "read.Encode", "read.ToProto", "read.EncodeProto", "read.Bins", "read.as_merge_argument", "read.as_change_mapping_source", "ending.underflowed_bins", "race.pairs", "read.change_mapping_below_target_range"},
+		Mandatory: []string{"oracle.read_purity_checks", "oracle.twin_equalities", "oracle.copy_equalities", "oracle.copy_independence_checks", "layout.read_reorganised", "read.Encode", "read.ToProto", "read.EncodeProto", "read.Bins", "read.as_merge_argument", "read.as_change_mapping_source", "ending.underflowed_bins", "race.pairs", "race.pairs.copy", "race.pairs.merge_receiver_and_argument", "race.pairs.identity_conversion", "race.pairs.decoded_from_encoding", "race.pairs.rebuilt_from_message", "race.pairs.store_copy", "read.change_mapping_below_target_range"},
 		Assumptions: []string{
 			"dyadic weights: observations are bitwise comparable whatever the iteration order of the sparse store",
 			"race pass: the Go race detector only reports races on executions it sees; silence is not a proof of independence",
